@@ -10,7 +10,7 @@ use scpi::parser::format::{Arbitrary, Character, Expression};
 use scpi::tree::prelude::*;
 use serde::{Deserialize, Serialize};
 
-#[derive(Clone, Debug, PartialEq, Eq, Hash, Serialize, Deserialize)]
+#[derive(Clone, Copy, Debug, PartialEq, Eq, Hash, Serialize, Deserialize)]
 pub enum PullAs {
     /// keep the raw token
     Raw,
@@ -35,7 +35,7 @@ pub enum PullAs {
     IterChanList,
 }
 
-#[derive(Clone, Debug, PartialEq, Eq, Hash, Serialize, Deserialize)]
+#[derive(Clone, Copy, Debug, PartialEq, Eq, Hash, Serialize, Deserialize)]
 pub struct Pull {
     pub optional: bool,
     pub as_: PullAs,
